@@ -1,0 +1,121 @@
+//! Verification hooks (only compiled with `--cfg a2lfile_verif`).
+//!
+//! This module only forwards to crate-private functions and formats their results; it contains no logic of its own.
+
+use crate::a2ml::{self, A2mlTaggedTypeSpec, A2mlTypeSpec};
+use crate::tokenizer::{self, A2lTokenType, TokenizerError};
+use crate::Filename;
+
+/// result of `tokenize_core`: list of (kind, startpos, endpos, line) or (error kind, line)
+pub fn tokenize_dump(text: &str) -> Result<Vec<(u8, usize, usize, u32)>, (&'static str, u32)> {
+    match tokenizer::tokenize_core_hook(text) {
+        Ok(tokens) => Ok(tokens
+            .iter()
+            .map(|t| {
+                let kind = match t.ttype {
+                    A2lTokenType::Identifier => 0,
+                    A2lTokenType::Begin => 1,
+                    A2lTokenType::End => 2,
+                    A2lTokenType::Include => 3,
+                    A2lTokenType::String => 4,
+                    A2lTokenType::Number => 5,
+                    A2lTokenType::Comment => 6,
+                };
+                (kind, t.startpos, t.endpos, t.line)
+            })
+            .collect()),
+        Err(err) => Err(match err {
+            TokenizerError::IncludeFileError { line, .. } => ("IncludeFileError", line),
+            TokenizerError::IncompleteIncludeError { line, .. } => ("IncompleteIncludeError", line),
+            TokenizerError::InvalidA2lToken { line, .. } => ("InvalidA2lToken", line),
+            TokenizerError::InvalidNumericalConstant { line, .. } => {
+                ("InvalidNumericalConstant", line)
+            }
+            TokenizerError::UnclosedComment { line, .. } => ("UnclosedComment", line),
+            TokenizerError::UnclosedString { line, .. } => ("UnclosedString", line),
+            TokenizerError::MissingWhitespace { line, .. } => ("MissingWhitespace", line),
+        }),
+    }
+}
+
+/// `loader::decode_raw_bytes`
+pub fn decode_raw_bytes(filedata: &[u8]) -> String {
+    crate::loader::decode_raw_bytes_hook(filedata)
+}
+
+/// `a2ml::parse_a2ml`: canonical rendering of the IF_DATA type tree (hash maps sorted by tag)
+pub fn a2ml_dump(input: &str) -> Result<String, String> {
+    let (spec, _) = a2ml::parse_a2ml(&Filename::from("hook"), input)?;
+    let mut out = String::new();
+    dump_spec(&spec, &mut out);
+    Ok(out)
+}
+
+fn dump_tagged(items: &std::collections::HashMap<String, A2mlTaggedTypeSpec>, out: &mut String) {
+    let mut keys: Vec<&String> = items.keys().collect();
+    keys.sort();
+    for key in keys {
+        let item = &items[key];
+        out.push_str(&format!(
+            "({:?} {} {} ",
+            item.tag,
+            u8::from(item.is_block),
+            u8::from(item.repeat)
+        ));
+        dump_spec(&item.item, out);
+        out.push(')');
+    }
+}
+
+fn dump_spec(spec: &A2mlTypeSpec, out: &mut String) {
+    match spec {
+        A2mlTypeSpec::None => out.push_str("none"),
+        A2mlTypeSpec::Char => out.push_str("char"),
+        A2mlTypeSpec::Int => out.push_str("int"),
+        A2mlTypeSpec::Long => out.push_str("long"),
+        A2mlTypeSpec::Int64 => out.push_str("int64"),
+        A2mlTypeSpec::UChar => out.push_str("uchar"),
+        A2mlTypeSpec::UInt => out.push_str("uint"),
+        A2mlTypeSpec::ULong => out.push_str("ulong"),
+        A2mlTypeSpec::UInt64 => out.push_str("uint64"),
+        A2mlTypeSpec::Float => out.push_str("float"),
+        A2mlTypeSpec::Double => out.push_str("double"),
+        A2mlTypeSpec::Array(inner, dim) => {
+            out.push_str(&format!("arr[{dim} "));
+            dump_spec(inner, out);
+            out.push(']');
+        }
+        A2mlTypeSpec::Enum(items) => {
+            let mut keys: Vec<&String> = items.keys().collect();
+            keys.sort();
+            out.push_str("enum{");
+            for key in keys {
+                out.push_str(&format!("{key:?}={:?} ", items[key]));
+            }
+            out.push('}');
+        }
+        A2mlTypeSpec::Struct(items) => {
+            out.push_str("struct{");
+            for item in items {
+                dump_spec(item, out);
+                out.push(' ');
+            }
+            out.push('}');
+        }
+        A2mlTypeSpec::Sequence(inner) => {
+            out.push_str("seq(");
+            dump_spec(inner, out);
+            out.push(')');
+        }
+        A2mlTypeSpec::TaggedStruct(items) => {
+            out.push_str("ts{");
+            dump_tagged(items, out);
+            out.push('}');
+        }
+        A2mlTypeSpec::TaggedUnion(items) => {
+            out.push_str("tu{");
+            dump_tagged(items, out);
+            out.push('}');
+        }
+    }
+}
